@@ -234,7 +234,7 @@ def docPool : List String := ["A documented type.", "first line\nsecond line", "
 /-- schema sets. `cyclic = false`: the import graph is a DAG plus self-imports, and lookup references
     (`ref=`, `base=`) may cross files along it. `cyclic = true`: any directed graph (mutual imports,
     cycles), and lookup references stay inside their file (only `type=` references cross files). -/
-def genSchemaSet (cyclic : Bool) : M SchemaSet := do
+def genSchemaSet (cyclic : Bool) (forWsdl : Bool := false) : M SchemaSet := do
   let nNs := 1 + (← below 4)
   -- distinct URIs
   let mut uris : List String := []
@@ -249,8 +249,10 @@ def genSchemaSet (cyclic : Bool) : M SchemaSet := do
         if j < i then
           if (← chance 3 5) then edges := edges ++ [(i, j)]
         else if cyclic && (← chance 2 5) then edges := edges ++ [(i, j)]
-      else if (← chance 1 12) then edges := edges ++ [(i, i)]
-  let start ← if cyclic then below nNs else pure (nNs - 1 - (← below (if nNs > 1 && (← chance 1 4) then 2 else 1)))
+      else if !(forWsdl && i + 1 == nNs) && (← chance 1 12) then edges := edges ++ [(i, i)]
+  let start ← if cyclic then below nNs
+    else if forWsdl then pure (nNs - 1)
+    else pure (nNs - 1 - (← below (if nNs > 1 && (← chance 1 4) then 2 else 1)))
   let typeOk := fun i j => i == j || edges.contains (i, j)
   let lookupOk := fun i j => i == j || (!cyclic && j < i && edges.contains (i, j))
   -- plan the named items
@@ -311,6 +313,83 @@ def genSchemaSet (cyclic : Bool) : M SchemaSet := do
     let imports := (edges.filter (·.1 == ns)).map (·.2)
     files := files ++ [{ fileName := "f" ++ toString ns ++ ".xsd", tns := ns, prefixes := prefixes, imports := imports, comps := shuffled }]
   pure { uris := uris, files := files, start := start }
+
+def urlPool : List (String × String) := [
+  ("http://localhost:8080/svc", "http://localhost:8080/svc"), ("https://example.com/soap/endpoint", "https://example.com/soap/endpoint"),
+  ("http://example.com", "http://example.com/"), ("http://EXAMPLE.com:80/a/../b", "http://example.com/b"),
+  ("http://example.com/path?x=1&y=2", "http://example.com/path?x=1&y=2"), ("urn:example:action", "urn:example:action"),
+  ("http://example.com/a b", "http://example.com/a%20b")]
+
+/-- distinct operation / part names: distinct PascalCase and snake_case images -/
+partial def freshOpName (usedP usedS : List String) : M String := do
+  let w ← pickWord
+  let n := styled w (← below 6)
+  let n ← if (← chance 1 4) then pure (n ++ toString (← below 9)) else pure n
+  let p := toPascalCase n
+  let sn := Ref.fieldName n
+  if p.isEmpty || !(isLowerA n.front || isUpperA n.front) || usedP.contains p || usedS.contains sn then freshOpName usedP usedS else pure n
+
+/-- a document/literal WSDL around a schema set: the start file becomes the inline schema -/
+def genWsdlSet : M SchemaSet := do
+  let s ← genSchemaSet false true
+  let some f := s.files[s.start]? | pure s
+  let lookupOk := fun (j : Nat) => j == f.tns || (j < f.tns && f.imports.contains j)
+  -- global elements the messages may refer to
+  let elems : List (Nat × String) := s.files.flatMap fun g =>
+    if !lookupOk g.tns then [] else g.comps.filterMap fun c => match c with
+      | .elementAnon n _ => some (g.tns, n)
+      | .elementTyped n _ => some (g.tns, n)
+      | _ => none
+  -- make sure there is at least one element in the WSDL's own namespace
+  let extra ← freshTypeName f.tns
+  let f' := { f with comps := f.comps ++ [.elementAnon extra { content := some ({}, [.elem "payload" (.builtin "string") {}]) }] }
+  let elems := elems ++ [(f.tns, extra)]
+  let nOps := 1 + (← below 4)
+  let mut ops : List Operation := []
+  let mut msgs : List Message := []
+  let mut usedP : List String := []
+  let mut usedS : List String := []
+  for k in [0:nOps] do
+    let opName ← freshOpName usedP usedS
+    usedP := toPascalCase opName :: usedP
+    usedS := Ref.fieldName opName :: usedS
+    let mkDir (tag : String) : M (Message × BoundDir) := do
+      let nH ← if (← chance 1 2) then pure 0 else below 4
+      let mut parts : List Part := []
+      let mut names : List String := []
+      let mut snakes : List String := []
+      for _ in [0:nH + 1] do
+        let (ens, en) ← pick elems
+        -- part name equal to the element name, or something else
+        let pn ← if (← chance 1 2) && !snakes.contains (Ref.fieldName en) then pure en else freshOpName [] snakes
+        if !snakes.contains (Ref.fieldName pn) then
+          parts := parts ++ [{ name := pn, elemNs := ens, elemName := en }]
+          names := names ++ [pn]
+          snakes := Ref.fieldName pn :: snakes
+      -- which part is the body: a random one; the others are headers
+      let bi ← below parts.length
+      let body := (parts.getD bi default).name
+      let headers := names.filter (· != body)
+      let explicit ← chance 1 2
+      let mname := opName ++ tag ++ toString k
+      pure ({ name := mname, parts := parts }, { message := mname, bodyParts := if explicit then some body else none, headers := headers })
+    let (mi, di) ← mkDir "In"
+    msgs := msgs ++ [mi]
+    let hasOut ← chance 3 4
+    let out ← if hasOut then do
+        let (mo, d) ← mkDir "Out"
+        msgs := msgs ++ [mo]
+        pure (some d)
+      else pure none
+    let action ← if (← chance 1 2) then pure (some (← pick urlPool)) else pure none
+    ops := ops ++ [{ name := opName, soapAction := action, input := di, output := out }]
+  let svc ← freshOpName [] []
+  let w : Wsdl := { fileName := "service.wsdl", schemaFile := s.start, messages := msgs, portType := svc ++ "PortType",
+                    binding := svc ++ "Binding", ops := ops, service := svc, port := svc ++ "Port", address := (← pick urlPool) }
+  pure { s with files := s.files.set s.start f', wsdl := some w }
+
+def runWsdl (seed : Nat) (smallPool : Bool := false) : SchemaSet :=
+  (genWsdlSet.run { seed := seed * 2654435761 + 777, smallPool := smallPool }).1
 
 def run (seed : Nat) (cyclic : Bool := false) (smallPool : Bool := false) : SchemaSet :=
   ((genSchemaSet cyclic).run { seed := seed * 2654435761 + 12345, smallPool := smallPool }).1
